@@ -33,6 +33,8 @@ def concretise(scen, i):
          "calls": scen["calls"], "frames": []}
     for j, f in enumerate(scen["frames"]):
         s["frames"].append({"cls": f["cls"], "ts": [SECS[(i + j) % 4], USECS[(i // 3 + 2 * j) % 3]], "pkt": (i + 5 * j) % NSHAPES})
+    if i % 7 == 3:
+        s["raw"] = True          # set_extract_raw_pdus(true): every record is delivered as its bytes
     return usable(s, i)
 
 
